@@ -12,7 +12,7 @@ PEAK = 1e6          # compositions whose intermediates exceed this are not compa
 TAU = 1e-7
 RULE = ('every program of the catalogue (single operations with all rank/axis/operand-kind variants, buffers, views, '
         'factorization outputs) x (D,P) x recording kind {ndarray, UTPM(1,1), UTPM(2,2), the evaluation polynomial itself followed by a sweep without re-evaluation} x recording point {= or != evaluation '
-        'point}, plus random straight-line compositions of length 3..12; seeds ybar and directions v random, non-symmetric, '
+        'point}; every such program again with its inputs also consumed by another operation recorded before / after it (adjoint accumulation); random straight-line compositions of length 3..12 (intermediate values <= 1e6); graphs with two dependents, one computed from the other; seeds ybar and directions v random, non-symmetric, '
         'non-zero at all orders; check: sum_elements (xbar*v)_d == sum_elements (ybar*Jv)_d for every d<D and direction, '
         'tolerance 1e-7 x pairing of absolute values; a class = (program, D, P, recording kind); non-trivial = the pairing '
         'majorant is non-zero at the highest order')
